@@ -312,6 +312,20 @@ def check_props_file(pid, vfile):
     return res
 
 
+def run_coqchk(spec, pid):
+    """Thorough tier: re-check the property's compiled Props module(s) and everything they depend on with the independent
+    checker and read the axioms it reports (`coqchk -silent -o`)."""
+    mods = ["Oxy.Props." + os.path.splitext(f)[0] for f in spec.get("props_files", [pid + ".v"])]
+    t0 = time.time()
+    rc, out = sh(["coqchk", "-silent", "-o", "-Q", COQ, "Oxy"] + mods, cwd=COQ, timeout=3000)
+    m = re.search(r"\* Axioms:(.*?)\n\s*\n\* ", out, flags=re.S)
+    axioms = m.group(1).strip() if m else "?"
+    ok = rc == 0 and axioms == "<none>" and "type-in-type: <none>" in out and "unsafe (co)fixpoints: <none>" in out \
+        and "positivity is assumed: <none>" in out
+    return {"ok": ok, "rc": rc, "axioms": axioms, "modules": mods, "wall_s": round(time.time() - t0, 1),
+            "cmd": "coqchk -silent -o -Q coq Oxy " + " ".join(mods), "tail": out[-600:] if not ok else ""}
+
+
 FORBIDDEN = r"\b(Admitted|admit|Axiom|Parameter|Conjecture|Abort All)\b|Unset Guard|bypass_check|Admit Obligations|-type-in-type|impredicative-set"
 
 
@@ -550,6 +564,12 @@ def check(pid, tier, seed):
     for msg in gen_fail:
         proof["broken"].append({"theorem": "Gen", "reason": msg[:500]})
     audit = grep_audit()
+    chk = None
+    if tier == "thorough" and not proof["broken"]:
+        with Lock("coqchk"):
+            chk = run_coqchk(spec, pid)
+        if not chk["ok"]:
+            proof["broken"].append({"theorem": "coqchk", "reason": "independent checker: rc=%s axioms=%s %s" % (chk["rc"], chk["axioms"], chk["tail"][-300:])})
     if audit:
         proof["broken"].append({"theorem": "audit", "reason": "forbidden constructs: %s" % audit[:5]})
 
@@ -788,6 +808,8 @@ def check(pid, tier, seed):
         "samples": samples[:4] if samples else [{"theorems": proof["theorems"]}],
         "known_findings_observed": len(known_hits),
     }
+    if chk is not None:
+        cov["coqchk"] = {k: chk[k] for k in ("ok", "axioms", "modules", "wall_s", "cmd")}
     cov.update(extra_cov or {})
     ev = {"property_id": pid, "tier": tier, "seed": seed, "level": "proof", "coverage": cov,
           "assumptions": spec.get("assumptions", []), "wall_s": round(wall, 2), "violations": len(vio_lines)}
